@@ -156,14 +156,17 @@ func (p *vf41PKI) fingerprint(of, form string) string {
 	panic("vf41: unknown fingerprint form " + form)
 }
 
+type vf41FP struct {
+	Of   string `json:"of"`
+	Form string `json:"form"`
+}
+
 type vf41Case struct {
-	Via    string `json:"via"`
-	Served string `json:"served"`
-	Ver    string `json:"ver"`
-	FP     struct {
-		Of   string `json:"of"`
-		Form string `json:"form"`
-	} `json:"fp"`
+	Via    string   `json:"via"`
+	Served string   `json:"served"`
+	Ver    string   `json:"ver"`
+	FP     vf41FP   `json:"fp"`    // single connection
+	Steps  []vf41FP `json:"steps"` // or a sequence of connections to the same server in this process
 }
 
 // certificate or pin failures are outcomes; anything else (timeouts, refused connections) is a harness problem
@@ -205,21 +208,17 @@ func TestVerif_C41_Handshake(t *testing.T) {
 		return s
 	}
 
-	verifrt.ForEachCase(t, func(raw []byte) {
-		var line struct {
-			ID int             `json:"id"`
-			C  json.RawMessage `json:"c"`
-		}
-		verifrt.Decode(t, raw, &line)
-		var c vf41Case
-		verifrt.Decode(t, line.C, &c)
+	// one connection made with MakeConfig(fingerprint). exchange: application data is sent and read on
+	// the raw connection too (a TLS 1.3 server delivers its session tickets with the first data).
+	connect := func(c *vf41Case, f vf41FP, exchange bool) map[string]any {
 		srv := server(c.Served, c.Ver)
 		addr := strings.TrimPrefix(srv.URL, "https://")
-		fp := pki.fingerprint(c.FP.Of, c.FP.Form)
+		fp := pki.fingerprint(f.Of, f.Form)
 		conf := MakeConfig(fp) // the code under test
 
 		var err error
 		var version uint16
+		resumed := false
 		before := served.Load()
 		switch c.Via {
 		case "dial":
@@ -227,6 +226,15 @@ func TestVerif_C41_Handshake(t *testing.T) {
 			conn, err = ctls.DialWithDialer(&net.Dialer{Timeout: 20 * time.Second}, "tcp", addr, conf)
 			if err == nil {
 				version = conn.ConnectionState().Version
+				resumed = conn.ConnectionState().DidResume
+				if exchange {
+					conn.SetDeadline(time.Now().Add(20 * time.Second)) //nolint:errcheck
+					_, werr := conn.Write([]byte("GET / HTTP/1.0\r\nHost: x\r\n\r\n"))
+					body, rerr := io.ReadAll(conn)
+					if werr != nil || !strings.HasSuffix(string(body), "ok") {
+						t.Fatalf("vf41: no answer on an established connection: %v %v %q", werr, rerr, string(body))
+					}
+				}
 				conn.Close()
 			}
 		case "httpget":
@@ -239,6 +247,7 @@ func TestVerif_C41_Handshake(t *testing.T) {
 				res.Body.Close()
 				if res.TLS != nil {
 					version = res.TLS.Version
+					resumed = res.TLS.DidResume
 				}
 				if res.StatusCode != http.StatusOK || served.Load() != before+1 {
 					t.Fatalf("vf41: unexpected answer %d", res.StatusCode)
@@ -248,8 +257,8 @@ func TestVerif_C41_Handshake(t *testing.T) {
 		default:
 			t.Fatalf("vf41: unknown via %q", c.Via)
 		}
-		rec := map[string]any{"id": line.ID, "c": line.C, "success": err == nil,
-			"eqfold": strings.EqualFold(fp, pki.hexOf(c.Served)), "fptext": fp, "tlsversion": version}
+		rec := map[string]any{"success": err == nil, "eqfold": strings.EqualFold(fp, pki.hexOf(c.Served)),
+			"fptext": fp, "tlsversion": version, "resumed": resumed}
 		if err != nil {
 			if !vf41ExpectedFailure(err) {
 				t.Fatalf("vf41: connection failed for a reason that is not a certificate decision: %v", err)
@@ -260,6 +269,27 @@ func TestVerif_C41_Handshake(t *testing.T) {
 			}
 			rec["err"] = msg
 		}
-		out.Emit(rec)
+		return rec
+	}
+
+	verifrt.ForEachCase(t, func(raw []byte) {
+		var line struct {
+			ID int             `json:"id"`
+			C  json.RawMessage `json:"c"`
+		}
+		verifrt.Decode(t, raw, &line)
+		var c vf41Case
+		verifrt.Decode(t, line.C, &c)
+		if c.Steps == nil {
+			rec := connect(&c, c.FP, false)
+			rec["id"], rec["c"] = line.ID, line.C
+			out.Emit(rec)
+			return
+		}
+		steps := []map[string]any{}
+		for _, f := range c.Steps {
+			steps = append(steps, connect(&c, f, true))
+		}
+		out.Emit(map[string]any{"id": line.ID, "c": line.C, "steps": steps})
 	})
 }
